@@ -242,8 +242,12 @@ def run_file(ctx, spec, rng, label, vol):
                     run.cov["evaluations"] += 1
                     tag = (cname, mode, "slice", a, b, k)
                     if r != exp:
-                        ix = range(*slice(a, b, k).indices(n)) if k != 0 else []
-                        key = classify(segs, min(ix), max(ix) + 1) if (mode == "lazy" and len(ix)) else "slice-mismatch"
+                        key = "slice-mismatch"
+                        if mode == "lazy" and k != 0:
+                            st, sp, kk = slice(a, b, k).indices(n)
+                            lo, hi = (st, sp) if kk > 0 else (sp + 1, st + 1)
+                            key = classify(segs, max(lo, 0), max(lo, hi, 0))
+                            key = "slice-mismatch" if key == "window-mismatch" else key
                         ctx.violation(key, "%s channel[%r:%r:%r] on channel %s (%s, %d values): got %r, NumPy gives %r"
                                       % (mode, a, b, k, c, dt, n, r, exp),
                                       dict(base, op="slice", mode=mode, start=a, stop=b, step=k), exp, r, tag)
